@@ -171,7 +171,7 @@ MUTATORS = [
     "unique_faces", "nondegenerate_faces", "process", "fix_normals", "fix_winding", "fix_inversion", "fill_holes",
     "convert_units", "edit_vertices", "edit_faces", "assign_vertices", "assign_faces", "density", "center_mass",
     "assign_face_normals", "assign_vertex_normals", "copy", "cache_clear", "reseed", "bad_transform", "bad_mask", "view_write",
-    "subdivide_inplace_like", "remove_degenerate", "remove_duplicate", "smooth", "apply_obb", "update_vertices_inverse", "merge_then_unmerge",
+    "subdivide_inplace_like", "remove_degenerate", "remove_duplicate", "smooth", "apply_obb", "update_vertices_inverse", "merge_then_unmerge", "there_and_back",
 ]
 EDIT_V_ROUTES = ["item", "row", "slice", "mask", "fancy", "iadd", "isub", "imul", "itruediv", "put", "idiom_col", "idiom_rows", "fill_row", "sort"]
 EDIT_F_ROUTES = ["item", "swap_rows", "flip_row", "roll_row", "slice_assign"]
@@ -354,6 +354,10 @@ class C01(World):
             op["cls"] = rng.choice(["true", "wrong_shape"])
         elif kind == "copy":
             op["route"] = rng.choice(["copy", "copy_cache", "copy.copy", "copy.deepcopy", "copy_novisual"])
+        elif kind == "there_and_back":
+            op["f"] = rng.choice([2.0, 0.5, 4.0])
+            op["obs_mid"] = rng.choice(["area", "volume", "bounds", "centroid", "face_normals", "edges_unique", "is_watertight", "area_faces", "triangles"])
+            op["fresh_copy_first"] = rng.random() < 0.5
         elif kind == "write_nan":
             op.update({"i": rng.randrange(10**6), "value": rng.choice(["nan", "inf"])})
         elif kind == "bad_transform":
@@ -658,6 +662,23 @@ class C01(World):
         elif k == "merge_then_unmerge":
             m.merge_vertices(merge_norm=True, merge_tex=True)
             m.unmerge_vertices()
+        elif k == "there_and_back":
+            # an exactly invertible in-place edit, ONE read in the other state, and the edit undone bit for bit: a value
+            # computed for the other state must not be waiting under the identifier of this one
+            if op.get("fresh_copy_first"):
+                m = m.copy()  # a mesh whose cache is empty but whose identifier is already recorded
+            f = float(op["f"])
+            v = m.vertices
+            v *= f
+            if which == "main":
+                try:
+                    getattr(m, op["obs_mid"])
+                except (KeyboardInterrupt, SystemExit, MemoryError):
+                    raise
+                except BaseException:
+                    pass
+            v = m.vertices
+            v /= f
         elif k == "edit_vertices":
             v = m.vertices
             route, d, i, j = op["route"], op["d"], a["i"], op["j"]
